@@ -83,6 +83,7 @@ OPTIONS = [
     ('pre-nan+offset', dict(max_iter=3, failures='ignore', offset=1)),
     ('pre-nan', dict(max_iter=3, failures='ignore')),
     ('raise', dict(max_iter=2)),
+    ('pre-nan-after-solve', dict(max_iter=4, failures='ignore')),
 ]
 
 
@@ -130,6 +131,11 @@ def run_case(case, p=None, Model=None):
     if optname == 'pre-nan+offset' and 0 <= pos + 1 < n:
         m[endo[0]][pos + 1] = np.nan  # the non-finite value sits in the period the offset copies FROM
         kw['errors'] = 'raise'
+    if optname == 'pre-nan-after-solve' and lags <= pos < n - leads:
+        # history: the period was solved before; a NaN then appears in a check variable; the new call is rejected and changes nothing
+        refsolve.call_outcome(m.solve_t, t, max_iter=4, failures='ignore')
+        m[endo[0]][pos] = np.nan
+        kw['errors'] = 'raise'
     before = snapshot(m)
     recarray.install(m)
     del recarray.LOG[:]
@@ -140,7 +146,7 @@ def run_case(case, p=None, Model=None):
     out = []
     feasible = lags <= pos < n - leads
     offset = kw.get('offset', 0)
-    rejected_upfront = (optname.startswith('min>max')) or (offset and not (0 <= pos + offset < n)) or (optname == 'pre-nan' and kw.get('errors') == 'raise')
+    rejected_upfront = (optname.startswith('min>max')) or (offset and not (0 <= pos + offset < n)) or (optname in ('pre-nan', 'pre-nan-after-solve') and kw.get('errors') == 'raise')
     if optname == 'pre-nan+offset':
         # rejected (pre-existing non-finite check value once the offset copy is made); the copied endogenous values at t are the only change allowed
         if not feasible_pos(lags, leads, pos, n) or not (0 <= pos + 1 < n):
